@@ -3,6 +3,55 @@ each property.  A unit may serve several properties; its obligations are
 generated once per check run."""
 
 UNITS = {
+    'C07': {
+        'functions': ['penman._lexer:TokenIterator.__bool__', 'penman._lexer:TokenIterator.error',
+                      'penman._lexer:TokenIterator.peek', 'penman._lexer:TokenIterator.next',
+                      'penman._lexer:TokenIterator.expect', 'penman._lexer:TokenIterator.accept'],
+        'regex': ['lexer'],
+        'lemmas': [],
+        'level': 'other',
+        'explanation': 'Proved against the abstract view (remaining tokens, last token): every token request '
+                       '(peek/next/expect/accept) returns the head of the remaining tokens and advances by one, converts '
+                       'exhaustion into the decode error, and the error carries the line and column of the offending '
+                       'token or, when the input runs out, the end of the last token returned; accept never raises.  '
+                       'Lexer facts as for C08.  Acceptance of exactly the documented language by _parse_node/_parse_edge '
+                       '(and the resulting trees) is decided by the bounded stand-in against the recogniser G.',
+    },
+    'C19': {
+        'functions': ['penman._format:format_triples', 'penman._lexer:TokenIterator.expect',
+                      'penman._lexer:TokenIterator.accept', 'penman._lexer:TokenIterator.next',
+                      'penman._lexer:TokenIterator.peek', 'penman._lexer:TokenIterator.__bool__'],
+        'regex': ['lexer'],
+        'lemmas': [],
+        'level': 'other',
+        'explanation': 'Proved: format_triples writes one role(source, target) conjunct per triple, in order, colon '
+                       'stripped, joined by " ^" and a newline or blank (induction over the triple list); the token '
+                       'iterator the conjunction parser is built on; TRIPLE_RE facts (":" "/" "~" are unexpected there, '
+                       'STRING is a class of its own).  The round trip through _parse_triples and the spacing variants '
+                       'are decided by the bounded stand-in.',
+    },
+    'C03': {
+        'functions': ['penman._format:_format_edge', 'penman.model:Model.invert_role', 'penman.model:Model.invert',
+                      'penman.model:Model.deinvert', 'penman.model:Model.is_role_inverted',
+                      'penman.graph:Graph.__init__', 'penman.graph:Graph.variables', 'penman.graph:Graph.top'],
+        'lemmas': [],
+        'level': 'other',
+        'explanation': 'Proved: the formatter writes every atomic target it is given (0 and 0.0 included; only None and '
+                       'the empty string count as missing); inversion/deinversion of triples for every model; graph '
+                       'construction, variables and top.  That configure places every triple exactly once from any top '
+                       '(the in-place tree builder) is decided by the bounded stand-in.',
+    },
+    'C01': {
+        'functions': ['penman._format:_format_edge', 'penman._lexer:TokenIterator.expect',
+                      'penman._lexer:TokenIterator.peek', 'penman._lexer:TokenIterator.next'],
+        'regex': ['lexer'],
+        'lemmas': [],
+        'level': 'other',
+        'explanation': 'Proved: lexer facts (delimiters never inside SYMBOL/ROLE, STRING atomic and prefix-free, class '
+                       'assignment), _format_edge (role, one blank, target), the token iterator.  The round trip '
+                       'parse(format(t, options)) == t, whitespace-only differences and the fixed point are decided by '
+                       'the bounded stand-in.',
+    },
     'C05': {
         'functions': ['penman.model:Model.original_order', 'penman.model:Model.alphanumeric_order',
                       'penman.model:Model.canonical_order', 'penman.model:Model.is_role_inverted'],
